@@ -67,7 +67,7 @@ func runC02(c *Ctx) {
 	// keys of the input table - a key that is in the table but not in the list is never read
 	r.Doc("X11", "(= D2, P2) the list of priorities the scheduler visits holds the registered keys: built from the keys of Opts.Inputs / appended on registration, and removal takes out exactly the removed key", 3)
 	for _, p := range []*Prog{c.V1, c.V2} {
-		pr, err := resolvePrio(p)
+		pr, err := resolvePrioLight(p)
 		if err != nil {
 			r.Fail("X11", p.Name+":priority", "-", err.Error())
 			continue
